@@ -86,23 +86,28 @@ RV_STACK = (0x30000000, 0x40000)
 def plan(tier, seed, avoid):
     specs = []
     if tier == "quick":
-        n, per = 96, 8
+        n, per, stride, nsub = 96, 16, 4, 2
     else:
-        n, per = 3200, 100
+        n, per, stride, nsub = 1600, 50, 1, 12
     for t in TARGETS:
         for s in range(0, n, per):
             specs.append({"part": "irgen", "target": t, "start": s, "count": per})
+        for sub in range(nsub):
+            specs.append({"part": "matrix", "target": t, "stride": stride, "offset": seed % stride, "sub": sub,
+                          "nsub": nsub})
         specs.append({"part": "directed", "target": t})
     return specs
 
 
 def floors(tier):
-    f = {"evaluations": 1500 if tier == "quick" else 40000, "distinct_nontrivial": 500 if tier == "quick" else 12000,
-         "observed.levels": 4, "observed.external_calls_compared": 50, "observed.globals_compared": 1000,
-         "observed.spill_frames": 20}
+    q = tier == "quick"
+    f = {"evaluations": 8000 if q else 100000, "distinct_nontrivial": 1000 if q else 15000,
+         "observed.levels": 4, "observed.external_calls_compared": 1000, "observed.globals_compared": 5000,
+         "observed.spill_frames": 30, "observed.matrix_cells": 3000 if q else 30000,
+         "observed.pointer_cells_translated": 20, "observed.stack_passed_calls": 50}
     for t in TARGETS:
-        f["observed.executed_by_target.%s" % t] = 300 if tier == "quick" else 8000
-        f["observed.modules_built.%s" % t] = 40 if tier == "quick" else 1000
+        f["observed.executed_by_target.%s" % t] = 2000 if q else 25000
+        f["observed.modules_built.%s" % t] = 150 if q else 2500
     return f
 
 
@@ -145,6 +150,7 @@ FINDINGS = {
     "riscv-signed-subword-to-unsigned-cast-zero-extends": {
         "targets": RV, "deny": ["cast:i8:u16", "cast:i8:u32", "cast:i16:u32", "cast:i8:ptr", "cast:i16:ptr"]},
     "riscv-frame-offset-beyond-imm12": {"targets": RV, "deny": ["frame:ge1024"]},
+    "x86_64-inplace-rm-destination-spilled": {"targets": ["x86_64"], "at_trigger": True},
     "x86_64-float-to-int-rounds-to-nearest": {"targets": ["x86_64"], "deny": ["cast:f32:[iu]*", "cast:f64:[iu]*"]},
     "x86_64-stack-passed-f32-parameter-4-byte-slots": {"targets": ["x86_64"], "deny": ["param:f32:cls[89]", "param:f32:cls1[0-9]"]},
 }
@@ -163,6 +169,16 @@ def const_predicates(target, avoid):
     """(const predicates, operand-constant predicates) of the open findings that apply to the target."""
     fs = [FINDINGS[k] for k in avoid if k in FINDINGS and target in FINDINGS[k]["targets"]]
     return [f["const"] for f in fs if "const" in f], [f["opconst"] for f in fs if "opconst" in f]
+
+
+def _const_of(v):
+    """The constant behind a value, looking through integer casts that keep the width (the selection DAG does too)."""
+    from ppci import ir
+
+    while isinstance(v, ir.Cast) and v.ty is not ir.ptr and v.src.ty is not ir.ptr and v.ty.is_integer \
+            and getattr(v.src.ty, "is_integer", False) and v.src.ty.bits == v.ty.bits:
+        v = v.src
+    return v if isinstance(v, ir.Const) else None
 
 
 def _harmless(ty, v):
@@ -187,8 +203,8 @@ def rewrite_constants(m, preds):
                     ins.value = _harmless(ins.ty, ins.value)
                     n += 1
                 elif isinstance(ins, ir.Binop) and ops and ins.ty is not ir.ptr:
-                    for side, c in (("lhs", ins.a), ("rhs", ins.b)):
-                        if isinstance(c, ir.Const) and isinstance(c.value, int) \
+                    for side, c in (("lhs", _const_of(ins.a)), ("rhs", _const_of(ins.b))):
+                        if c is not None and isinstance(c.value, int) \
                                 and any(p(ins.operation, ins.ty.name, c.value, side) for p in ops):
                             c.value = _harmless(c.ty, c.value) if ins.operation not in ("<<", ">>") or side == "lhs" \
                                 else 16 + abs(c.value) % 15
@@ -337,6 +353,7 @@ class Target:
 
         self.name = name
         self.mon = mon
+        self.avoid = tuple(avoid)
         self.arch = api.get_arch(name)
         self.x86 = name == "x86_64"
         self.ptr_size = self.arch.info.get_size("ptr")
@@ -356,6 +373,7 @@ class Target:
         """Output tap: which instruction classes ppci emitted, which frames spilled."""
         from ppci.codegen.registerallocator import GraphColoringRegisterAllocator as RA
 
+        RA._c05_x86_switch = self.x86 and "x86_64-inplace-rm-destination-spilled" in self.avoid
         if getattr(RA, "_c05_tapped", False):
             RA._c05_mon = self.mon
             return
@@ -384,6 +402,14 @@ class Target:
 
         def rewrite_program(ra, node):
             ra._c05_spilled = True
+            if RA._c05_x86_switch:
+                # avoid switch of x86_64-inplace-rm-destination-spilled, at the trigger: the allocator is about to
+                # spill a register that some instruction modifies in place through an undeclared r/m destination
+                from checks.c29 import Avoided
+                for ins in ra.frame.instructions:
+                    reg = x86_inplace_rm_destination(ins)
+                    if reg is not None and reg in node.temps:
+                        raise Avoided("x86_64-inplace-rm-destination-spilled")
             return orig_rewrite(ra, node)
 
         RA.alloc_frame = alloc_frame
@@ -410,6 +436,26 @@ class Target:
 
 
 KINDS = ("none", "i8", "u8", "i16", "u16", "i32", "u32", "i64", "u64", "f32", "f64", "ptr")
+
+
+def x86_inplace_rm_destination(ins):
+    """The register an x86-64 instruction modifies in place through a *register* r/m operand that is its first
+    (destination) operand, when the instruction does not declare it as written; else None."""
+    rm = getattr(ins, "rm", None)
+    reg = getattr(rm, "reg_rm", None)
+    if reg is None:
+        return None
+    try:
+        syn = type(ins).syntax
+        first = syn.formal_arguments[0]
+        mnemonic = syn.syntax[0]
+    except Exception:  # noqa
+        return None
+    if getattr(first, "_name", None) != "rm" or mnemonic in ("cmp", "test", "push", "call", "jmp"):
+        return None
+    if any(r is reg for r in ins.defined_registers):
+        return None
+    return reg
 
 
 def type_name(ty):
@@ -886,6 +932,7 @@ def irgen_cfg(r, tgt):
 
     vals = [t for t in tgt.types if t != "ptr" and usable(t)]
     return {"ptr_size": tgt.ptr_size, "types": vals, "float": any(t[0] == "f" for t in vals),
+            "float_to_int": cm.avoided({"cast:f64:i32", "cast:f32:i32"}, tgt.deny) is None,
             "size": r.choice([8, 14, 24, 36]), "n_funcs": 3, "shape": "mem" if r.random() < 0.2 else "ssa",
             "externals": True, "undefined": r.random() < 0.2, "volatile": r.random() < 0.2}
 
@@ -1097,9 +1144,9 @@ def run_matrix(spec, mon, tgt):
             return {f.name: irgen.gen_args(r, m, f.name, 4) for f in m.functions if callable_function(f)}
 
         if spec["tier"] == "thorough":
-            levels = list(LEVELS)
+            levels = ["0", "2"] + (["1", "s"] if (bi // BATCH) % 4 == spec["seed"] % 4 else [])
         else:
-            levels = ["0"] + (["2"] if (bi // BATCH) % 4 == spec["seed"] % 4 else [])
+            levels = ["0"] + ([LEVELS[1 + (bi // BATCH) % 3]] if (bi // BATCH) % 4 == spec["seed"] % 4 else [])
         case = {"id": "matrix/%s/%d.%d.%d" % (tgt.name, spec["offset"], spec["sub"], bi), "cells": names,
                 "replay_spec": dict(spec)}
         before = mon.evals
@@ -1122,4 +1169,127 @@ def run_shard(spec):
     return mon.result()
 
 
-PROBES = {}
+# --------------------------------------------------------------------------
+# witness probes of the known findings (own avoid switches off, C29's on)
+
+
+def _fn(m, name, ret, ptys):
+    from ppci import ir
+
+    f = ir.Function(name, ir.Binding.GLOBAL, ret) if ret is not None else ir.Procedure(name, ir.Binding.GLOBAL)
+    m.add_function(f)
+    ps = []
+    for i, t in enumerate(ptys):
+        p = ir.Parameter("p%d" % i, t)
+        f.add_parameter(p)
+        ps.append(p)
+    b = ir.Block(name + "_b0")
+    f.add_block(b)
+    f.entry = b
+    return f, ps, b
+
+
+def _w_neg():
+    from ppci import ir
+    m = ir.Module("w")
+    f, (a,), b = _fn(m, "f", ir.i32, [ir.i32])
+    u = ir.Unop("-", a, "u", ir.i32); b.add_instruction(u)
+    r = ir.Binop(u, "+", a, "r", ir.i32); b.add_instruction(r)
+    b.add_instruction(ir.Return(r))
+    return m, {"f": [[5], [7]]}
+
+
+def _w_const(v):
+    def build():
+        from ppci import ir
+        m = ir.Module("w")
+        f, _, b = _fn(m, "f", ir.i32, [])
+        c = ir.Const(v, "c", ir.i32); b.add_instruction(c)
+        b.add_instruction(ir.Return(c))
+        return m, {"f": [[]]}
+    return build
+
+
+def _w_binop_const(op, v, vecs, const_left=False):
+    def build():
+        from ppci import ir
+        m = ir.Module("w")
+        f, (a,), b = _fn(m, "f", ir.i32, [ir.i32])
+        c = ir.Const(v, "c", ir.i32); b.add_instruction(c)
+        r = ir.Binop(c if const_left else a, op, a if const_left else c, "r", ir.i32); b.add_instruction(r)
+        b.add_instruction(ir.Return(r))
+        return m, {"f": vecs}
+    return build
+
+
+def _w_trunc_cmp():
+    from ppci import ir
+    m = ir.Module("w")
+    f, (a,), b = _fn(m, "f", ir.i32, [ir.i32])
+    yes, no = ir.Block("yes"), ir.Block("no")
+    f.add_block(yes); f.add_block(no)
+    c = ir.Cast(a, "c", ir.i8); b.add_instruction(c)
+    z = ir.Const(0, "z", ir.i8); b.add_instruction(z)
+    b.add_instruction(ir.CJump(c, "<", z, yes, no))
+    one = ir.Const(1, "one", ir.i32); yes.add_instruction(one); yes.add_instruction(ir.Return(one))
+    zero = ir.Const(0, "zero", ir.i32); no.add_instruction(zero); no.add_instruction(ir.Return(zero))
+    return m, {"f": [[255], [128]]}
+
+
+def _w_cast(src, dst, vecs):
+    def build():
+        from ppci import ir
+        m = ir.Module("w")
+        f, (a,), b = _fn(m, "f", ir.get_ty(dst), [ir.get_ty(src)])
+        c = ir.Cast(a, "c", ir.get_ty(dst)); b.add_instruction(c)
+        b.add_instruction(ir.Return(c))
+        return m, {"f": vecs}
+    return build
+
+
+def _w_cell(cell, ptr_size, vecs=None):
+    def build():
+        from vlib import cgmatrix as cm, irgen
+        mb = cm.ModuleBuilder(ptr_size)
+        name = mb.add(cell)
+        r = rng(0, PROPERTY, "probe/" + cm.cell_key(cell))
+        return mb.m, {name: vecs or irgen.gen_args(r, mb.m, name, 4)}
+    return build
+
+
+def _w_pressure():
+    return pressure_module(8, "i64", "<<", 10, True), {"f": [[1, 5], [3, 2]]}
+
+
+def _probe(target, build, level="0"):
+    def run():
+        setup()
+        mon = Mon({})
+        tgt = Target(target, mon, ())
+        made = build()
+        run_module(tgt, mon, lambda: made[0], lambda m: made[1], [level], {"id": "probe"})
+        if mon.viol:
+            return mon.viol[0]["summary"]
+        if mon.inconclusive or not mon.evals:
+            raise RuntimeError("probe made no comparison: %r %r %r" % (mon.inconclusive, mon.disc, mon.obs["build_failed"]))
+        return None
+    return run
+
+
+PROBES = {
+    "riscv-neg-inv-overwrite-operand": _probe("riscv", _w_neg),
+    "rvc-consti32-clui-immediate-truncated": _probe("riscv:rvc", _w_const(131071)),
+    "riscv-imm12-patterns-without-lower-bound": _probe("riscv", _w_binop_const("^", -5000, [[1], [77]])),
+    "riscv-subword-values-not-normalised": _probe("riscv", _w_trunc_cmp),
+    "riscv-signed-subword-to-unsigned-cast-zero-extends": _probe("riscv", _w_cast("i8", "u32", [[-1], [-128]])),
+    "riscv-frame-offset-beyond-imm12": _probe("riscv", _w_cell({"k": "mem", "ty": "i32", "addr": "bigframe", "dir": "load",
+                                                                "frame": 2040}, 4)),
+    "rvc-shift-constant-lhs-operands-swapped": _probe("riscv:rvc", _w_binop_const("<<", 5, [[2], [3]], const_left=True)),
+    "rvc-signed-shift-right-by-constant-is-logical": _probe("riscv:rvc", _w_binop_const(">>", 3, [[-16], [-1]])),
+    "rvc-caddi-negative-immediate-sign-bit-dropped": _probe("riscv:rvc", _w_cell(
+        {"k": "binop", "op": "+", "ty": "i32", "a": "c_zero", "b": "c_neg", "use": "store"}, 4)),
+    "x86_64-float-to-int-rounds-to-nearest": _probe("x86_64", _w_cast("f64", "i32", [[-1.5], [2.75]])),
+    "x86_64-stack-passed-f32-parameter-4-byte-slots": _probe("x86_64", _w_cell(
+        {"k": "args", "ty": "f32", "n": 10, "side": "callee"}, 8)),
+    "x86_64-inplace-rm-destination-spilled": _probe("x86_64", _w_pressure),
+}
